@@ -58,6 +58,9 @@ def _macro_value(rng, nprod, defined_ok=True):
 def _use_value(rng, names):
   r = rng.random()
   m = {'macro': rng.choice(names)}
+  if rng.random() < 0.15 and names[0].startswith('M'):
+    # the same thing spelled as an evaluated reference with a partial name
+    m = {'ref': [rng.choice([n for n in names if '/' not in n]), 'macro', True]}
   if r < 0.5:
     return m
   if r < 0.7:
@@ -128,8 +131,12 @@ def gen(rng, tier):
     elif r < 0.85:
       ops.append({'op': 'call', 'cons': 'cons%d' % rng.randint(0, 1),
                   'scope': rng.choice(['', '', 's1', 'zz'])})
-    elif r < 0.93:
+    elif r < 0.9:
       ops.append({'op': 'finalize', 'scope': rng.choice(['', '', '', 'zz'])})
+    elif r < 0.95:
+      # a constant defined AFTER some texts were parsed
+      ops.append({'op': 'constant', 'name': rng.choice(CONST_POOL), 'kind': 'ok',
+                  'falsy': rng.random() < 0.2})
     else:
       ops.append({'op': 'unevaluated_use', 'name': rng.choice(MACROS[:3])})
   return {'nprod': nprod, 'consts': consts, 'ops': ops}
@@ -170,7 +177,8 @@ def run(case):
 
   # ---- constants -----------------------------------------------------------
   const_objs = {}
-  for c in case['consts']:
+
+  def define_constant(c):
     name = c['name']
     obj = probes.Tok(0, 'const:' + name) if not c.get('falsy') else \
         rng_free_falsy(name)
@@ -188,7 +196,7 @@ def run(case):
         v('C05.constant_name', ['invalid', type(exc).__name__],
           'gin.constant(%r) raised %s, expected ValueError' %
           (name, type(exc).__name__))
-      continue
+      return
     if name in const_objs:
       if exc is None:
         v('C05.constant_duplicate', ['accepted'],
@@ -203,6 +211,10 @@ def run(case):
       const_objs[name] = obj
     # (a name that merely abbreviates / is abbreviated by an existing constant
     # may be rejected by gin; the property does not say, so it is not judged)
+
+
+  for c in case['consts']:
+    define_constant(c)
 
   def resolve_const(abbrev):
     """Model A1 over constant names: returns object, 'ambiguous' or None."""
@@ -223,29 +235,58 @@ def run(case):
   used_before_def = set()
 
   def names_in(vs, out):
-    if 'macro' in vs:
+    """Names of the MACROS a (parse-time annotated) value refers to."""
+    if 'macro' in vs and 'const' not in vs:
       out.append(vs['macro'])
+    if 'ref' in vs and vs['ref'][1] == 'macro':
+      out.append(vs['ref'][0])   # explicit @NAME/macro() spelling
     for key in ('list', 'tuple'):
       for x in vs.get(key, []):
         names_in(x, out)
     for k, x in vs.get('dict', []):
       names_in(x, out)
 
+  def annotate(vs):
+    """Fixes, as gin does at parse time, whether each %name is a constant (and
+    which one) or a macro; returns None when an abbreviation is ambiguous."""
+    vs = copy.deepcopy(vs)
+
+    def walk(node):
+      if 'macro' in node:
+        n = node['macro']
+        if n in const_objs:
+          node['const'] = n
+        else:
+          cands = [c for c in const_objs if c.endswith('.' + n)]
+          if len(cands) > 1:
+            return False
+          if len(cands) == 1:
+            node['const'] = cands[0]
+        return True
+      for key in ('list', 'tuple'):
+        for x in node.get(key, []):
+          if not walk(x):
+            return False
+      for k, x in node.get('dict', []):
+        if not walk(x):
+          return False
+      return True
+    return vs if walk(vs) else None
+
   def stmt_effect(s, skip):
     """Applies one statement to the model; returns 'error' if gin must raise."""
+    val = annotate(s['val'])
+    if val is None:
+      stats['ambiguous_constant'] += 1
+      return 'error'
     names = []
-    names_in(s['val'], names)
-    for n in names:
-      rc = resolve_const(n)
-      if isinstance(rc, str) and rc == 'ambiguous':
-        stats['ambiguous_constant'] += 1
-        return 'error'
+    names_in(val, names)
     if s['k'] == 'macro':
-      macros[s['name']] = s['val']
+      macros[s['name']] = val
     else:
-      store.setdefault((s['scope'], s['sel']), {})[s['param']] = s['val']
+      store.setdefault((s['scope'], s['sel']), {})[s['param']] = val
       for n in names:
-        if resolve_const(n) is _NO_CONST and n not in macros:
+        if n not in macros:
           used_before_def.add(n)
     return None
 
@@ -253,13 +294,14 @@ def run(case):
     """Returns (kind, payload): the model's expectation for a delivered value."""
     if 'lit' in vs:
       return ('lit', vs['lit'])
+    if 'ref' in vs and vs['ref'][1] == 'macro':
+      vs = {'macro': vs['ref'][0]}
     if 'ref' in vs:
       return ('fresh', vs['ref'][1])
     if 'macro' in vs:
       n = vs['macro']
-      c = resolve_const(n)
-      if c is not _NO_CONST and not (isinstance(c, str) and c == 'ambiguous'):
-        return ('is', c)
+      if 'const' in vs:
+        return ('is', const_objs[vs['const']])
       if n not in macros:
         return ('unbound', n)
       if depth > 6:
@@ -382,6 +424,8 @@ def run(case):
           l for s in outer for l in cfgtext.stmt_lines(s, None)) + '\n'
       exc = do_parse(order, op['skip'], 'file', outer_name)
       log.add('parse_file', op['n'], type(exc).__name__ if exc else None)
+    elif k == 'constant':
+      define_constant(op)
     elif k == 'unevaluated_use':
       if locked[0]:
         continue
@@ -463,7 +507,7 @@ def run(case):
       for vs in macros.values():
         names_in(vs, refs)
       for n in refs:
-        if resolve_const(n) is _NO_CONST and n not in macros:
+        if n not in macros:
           reasons.append('unbound:' + n)
       exc = None
       try:
